@@ -63,6 +63,8 @@ type Contract struct {
 	PanicSrc   string
 	PanicLabel string
 	Pure       bool
+	Deterministic bool
+	DetLabel   string
 	Assumed    bool
 	NoInline   bool
 	Loops      map[int]*LoopSpec
@@ -156,7 +158,7 @@ var closureNameRe = regexp.MustCompile(`^(.+)__(\d+)$`)
 var labelRe = regexp.MustCompile(`^\[([A-Za-z0-9_.,\- ]+)\]`)
 
 var clauseKw = map[string]bool{"requires": true, "ensures": true, "modifies": true, "panics": true, "pure": true,
-	"assumed": true, "invariant": true, "decreases": true, "noinline": true, "trusted": true, "at": true}
+	"assumed": true, "invariant": true, "decreases": true, "noinline": true, "trusted": true, "at": true, "deterministic": true}
 
 // parseSpecFile reads //@ lines of one file. pkgPath is the package whose scope resolves unqualified Go names
 // (for prelude files it is set by `//@ package "path"`).
@@ -451,6 +453,11 @@ func (db *SpecDB) parseSpecFile(file string, pkgPath string) {
 				} else {
 					cur.CallAsserts[atSite] = append(cur.CallAsserts[atSite], &Clause{Kind: "assert", Label: label, Src: rest, E: e})
 				}
+			case "deterministic":
+				// deterministic [label]: no call of a node-local source (wall clock, random numbers, environment, runtime
+				// introspection) is reachable in the function's body or in anything inlined into it
+				cur.Deterministic = true
+				cur.DetLabel = label
 			case "pure":
 				cur.Pure = true
 			case "assumed":
